@@ -111,3 +111,9 @@ Definition chk_joint (J : Z) : bool := forallb (chk_jump J) mo_joint.
 (* joints of the piecewise definition with no libm call on either side (2050 and 2150 border
    the segment that uses `** 2`, i.e. libm pow) *)
 Definition joints_nolibm : list Z := [-500; 500; 1600; 1700; 1800; 1860; 1900; 1920; 1941; 1961; 1986; 2005].
+(* the same joints on the property's (year, month) grid: December of the year before the joint
+   against January of the joint year (the text asks for the joints after -500) *)
+Definition chk_month_jump (J : Z) : bool :=
+  fin (tt2ut (VInt J) (VInt 1)) && fin (tt2ut (VInt (J - 1)) (VInt 12)) &&
+  (PrimFloat.abs (fl (tt2ut (VInt J) (VInt 1)) - fl (tt2ut (VInt (J - 1)) (VInt 12))) <? 1)%float.
+Definition joints_monthly : list Z := [500; 1600; 1700; 1800; 1860; 1900; 1920; 1941; 1961; 1986; 2005].
